@@ -27,7 +27,7 @@ func registry() map[string]PropSpec {
 				What: "observers Len/IsZero/Get/Contains/Range/ToMap on arbitrary RI states agree with the model and do not write"},
 			{Pkg: "ordered", Name: "c05_equal", Quick: map[string]int{"slots": 3}, Thorough: map[string]int{"slots": 4}, Unwind: [2]int{16, 24},
 				What: "Equal on two arbitrary RI states is model equality, symmetric, reflexive, panic-free, read-only"},
-			{Pkg: "ordered", Name: "c05_range_rename", Quick: map[string]int{"slots": 3}, Thorough: map[string]int{"slots": 4}, Unwind: [2]int{16, 24},
+			{Pkg: "ordered", Name: "c05_range_rename", Quick: map[string]int{"slots": 4}, Thorough: map[string]int{"slots": 6}, Unwind: [2]int{16, 24},
 				What: "Replace from inside a Range callback: no revisits, callbacks see live entries, final state equals model"},
 			{Pkg: "ordered", Name: "c05_history", Quick: map[string]int{"ops": 3}, Thorough: map[string]int{"ops": 5}, Unwind: [2]int{16, 24},
 				What: "bounded histories through the public API from NewMap/new(Map): every reached state satisfies RI and all observers agree with the model"},
@@ -66,6 +66,8 @@ func registry() map[string]PropSpec {
 				What: "InterpolateMatrixPermutation: a rejected permutation leaves command, label, key, env, plugins and matrix untouched"},
 			{Pkg: ".", Name: "c11_tuple", Quick: map[string]int{"long": 5}, Thorough: map[string]int{"long": 7}, Unwind: [2]int{32, 48},
 				What: "tuple equality is per dimension: two dimensions, one adjustment, permutation and adjustment values of 1 or `long` symbolic bytes over the characters that occur as constants in step_command_matrix.go (so separators of any internal encoding are in the alphabet): accepted iff equal in every dimension and not skipped"},
+			{Pkg: ".", Name: "c11_skip", Quick: map[string]int{}, Unwind: [2]int{32, 32},
+				What: "every kind of skip value (absent, false, true, a symbolic string of <= 5 printable bytes, int, float, sequence): ShouldSkip is false exactly for absent and false, and validatePermutation accepts the adjustment's tuple (as an adjustment tuple and as a setup combination) exactly when it does not skip"},
 			{Pkg: ".", Name: "tv_validate_permutation", Quick: map[string]int{}, Unwind: [2]int{64, 64},
 				What: "translator validation: a TestMatrix_ValidatePermutation_Multiple-style table, concrete, through the engine (all map iteration orders)"},
 		},
@@ -173,8 +175,10 @@ func registry() map[string]PropSpec {
 	add(PropSpec{
 		ID: "C07",
 		Harnesses: []HSpec{
-			{Pkg: "ordered", Name: "c07_merge_chain", Quick: map[string]int{}, Unwind: [2]int{32, 32},
+			{Pkg: "ordered", Name: "c07_merge_chain", Quick: map[string]int{"typedkeys": 0}, Unwind: [2]int{32, 32},
 				What: "DecodeYAML on merge chains (root merges a and/or c by alias or sequence of aliases, a merges c, merge at any position, symbolic keys): content and order equal the reference of the merge rules"},
+			{Pkg: "ordered", Name: "c07_typed_merge", Quick: map[string]int{}, Unwind: [2]int{32, 32},
+				What: "a mapping that merges an anchored one, both keyed by typed scalars (!!int 0x1F and 31, !!bool True, !!float 1.5; 1-2 keys in the source, 0-2 explicit keys, merge at any position): explicit-beats-merged and merge-position order are decided on the canonical key (31, true, 1.500000e+00), not on the spelling"},
 			{Pkg: "ordered", Name: "c07_graph", Quick: map[string]int{"pool": 1, "poolentries": 1, "rootentries": 2, "poolnested": 1}, Thorough: map[string]int{"pool": 1, "poolentries": 2, "rootentries": 2, "poolnested": 0}, Unwind: [2]int{32, 48}, Budget: [2]int{120, 1500},
 				What: "DecodeYAML on arbitrary small node graphs (value aliases incl. self/mutual cycles, aliases in sequences, alias keys, merges by alias / sequence / inline mapping, nested mappings): error iff a value cycle exists, otherwise equal to the reference; aliases expand to independent copies"},
 			{Pkg: "ordered", Name: "c07_graph", Quick: map[string]int{"pool": 1, "poolentries": 2, "rootentries": 1, "poolnested": 0}, Thorough: map[string]int{"pool": 2, "poolentries": 1, "rootentries": 1, "poolnested": 1}, Unwind: [2]int{32, 48}, Budget: [2]int{120, 1500},
@@ -194,8 +198,10 @@ func registry() map[string]PropSpec {
 				What: "DecodeYAML, Map[string,string].UnmarshalOrdered, MarshalJSON and MarshalYAML keep document order for every key set (0-2-byte keys incl. the empty key)"},
 			{Pkg: "ordered", Name: "c08_roundtrip", Quick: map[string]int{"entries": 3, "ops": 1}, Thorough: map[string]int{"entries": 4, "ops": 2}, Unwind: [2]int{32, 48},
 				What: "a programmatically built ordered map (Set of up to `entries` keys, nested one level, then up to `ops` Delete/Replace operations that leave tombstoned slots at the front, middle or end) survives json.Marshal -> yaml.Unmarshal -> DecodeYAML and MarshalYAML -> DecodeYAML with keys, values and order (ordered.Equal)"},
-			{Pkg: "ordered", Name: "c07_merge_chain", Quick: map[string]int{}, Unwind: [2]int{32, 32},
+			{Pkg: "ordered", Name: "c07_merge_chain", Quick: map[string]int{"typedkeys": 0}, Unwind: [2]int{32, 32},
 				What: "merged keys stand where the merge key stood (shared with C07: order is part of the reference comparison)"},
+			{Pkg: "ordered", Name: "c07_typed_merge", Quick: map[string]int{}, Unwind: [2]int{32, 32},
+				What: "a mapping that merges an anchored one, both keyed by typed scalars (!!int 0x1F and 31, !!bool True, !!float 1.5; 1-2 keys in the source, 0-2 explicit keys, merge at any position): explicit-beats-merged and merge-position order are decided on the canonical key (31, true, 1.500000e+00), not on the spelling"},
 			{Pkg: ".", Name: "c08_plugins_order", Quick: map[string]int{"entries": 3}, Thorough: map[string]int{"entries": 4}, Unwind: [2]int{48, 64},
 				What: "Plugins.UnmarshalOrdered on the one-mapping form appends in mapping order; the pipeline env block decodes and marshals (JSON data model) in document order"},
 			{Pkg: ".", Name: "c08_nested_unknown", Quick: map[string]int{}, Unwind: [2]int{64, 64},
@@ -328,6 +334,9 @@ func registry() map[string]PropSpec {
 			{Pkg: "signature", Name: "c06_signsteps", Quick: map[string]int{"depth": 1, "width": 2, "lite": 1}, Thorough: map[string]int{"depth": 2, "width": 2, "lite": 1}, Unwind: [2]int{64, 64}, Budget: [2]int{120, 1500}, FixedMapOrder: true,
 				Models: []string{"net/url.Parse=vpModelURLParse", "path.Join=vpModelPathJoin"},
 				What:   "step-kind mixes with two steps per level inside nested groups (every position of an unknown step relative to groups and other steps); command steps kept minimal, one key kind"},
+			{Pkg: "signature", Name: "c06_envnames", Quick: map[string]int{}, Unwind: [2]int{64, 64}, Budget: [2]int{120, 1500}, FixedMapOrder: true,
+				Models: []string{"net/url.Parse=vpModelURLParse", "path.Join=vpModelPathJoin"},
+				What:   "one command step and one pipeline variable whose name is 1-3 symbolic bytes over the characters that occur in the signing code's own constants (read from the current SSA of sign.go: the env:: prefix, separators) plus A, _, a; shadowed or not: SignSteps signs env::NAME exactly when unshadowed, the field list is sorted and distinct, the signature verifies, and a changed value is refused"},
 		},
 		Outside: []string{"nesting depth 4 (bound: 2 quick / 3 thorough with one step per level; 0 / 1 with two steps per level); real cryptography (idealised)"},
 		Assumptions: []string{"ideal signature scheme: jws.Sign(k, alg, P) is the atom sigma(k, alg, P); jws.Verify succeeds iff the presented value is such an atom made with an offered key (same key-pair identity and algorithm) over an equal payload; values not produced by Sign never verify. Natively replays use real generated EdDSA/ES512/PS512/ES256 keys",
@@ -354,6 +363,10 @@ func registry() map[string]PropSpec {
 				What: "Sign then Verify with a presented world that differs from the signed one in exactly one of 23 ways (command, step env value/added/removed/shadowing, plugin source/config/order/added/removed, matrix, repository URL, signed pipeline variable changed/absent, algorithm string, mandatory field or env:: field dropped, unknown or unsigned field added, forged value, another step's value, another key) - Verify must return an error; untouched world verifies. JWK keys of all three algorithms and an ES256 crypto.Signer"},
 			{Pkg: "signature", Name: "c01_tamper", Quick: map[string]int{"matrix": 1}, Unwind: [2]int{64, 64}, Budget: [2]int{120, 1500}, FixedMapOrder: true, Models: []string{"net/url.Parse=vpModelURLParse", "path.Join=vpModelPathJoin"},
 				What: "same with a signed matrix that mixes the anonymous dimension with a named one and carries an adjustment: changing the named dimension, the anonymous one, removing a dimension or flipping the skip flag must be rejected"},
+			{Pkg: "signature", Name: "c01_fields", Quick: map[string]int{"fields": 5}, Thorough: map[string]int{"fields": 7}, Unwind: [2]int{64, 64}, Budget: [2]int{120, 1500},
+				What: "CommandStepWithInvariants.ValuesForFields on every field list of <= `fields` entries over the five mandatory names, an env:: entry and an unknown name (any order, repeats): values are handed out exactly when all five mandatory fields occur and nothing unknown does"},
+			{Pkg: "signature", Name: "c01_legacy", Quick: map[string]int{}, Unwind: [2]int{64, 64}, Budget: [2]int{120, 1500}, FixedMapOrder: true, Models: []string{"net/url.Parse=vpModelURLParse", "path.Join=vpModelPathJoin"},
+				What: "a genuine signature made by a signer that omits one of the five mandatory fields, its (unsigned) field list padded at either end with up to two repeats of fields it has, presented with the uncovered field changed or not: Verify must refuse"},
 		},
 		Outside: []string{"unforgeability of EdDSA/ES512/PS512/ES256 and injectivity of json.Marshal+JCS on bytes (assumed, see assumptions)", "pure re-ordering or duplication of the signed-field list (the payload is unchanged by construction; not a semantic change)", "Go map iteration orders are not varied in this harness (order-insensitivity of the payload is C14's)"},
 		Assumptions: []string{"ideal signature scheme: jws.Sign(k, alg, P) is the atom sigma(k, alg, P); jws.Verify succeeds iff the presented value is such an atom made with an offered key (same key-pair identity and algorithm) over an equal payload; values not produced by Sign never verify. Natively replays use real generated EdDSA/ES512/PS512/ES256 keys",
